@@ -103,6 +103,12 @@ typedef struct VmState {
     /* verification hook H1: instruction budget + executed-opcode histogram */
     uint64_t verif_fuel;          /* 0 = unlimited; otherwise instructions left */
     uint64_t verif_opcount[256];
+    /* verification hook H2: heap audit state (per VM, so thread-private in the daemon) */
+    long     verif_audit_every;   /* 0 = off; audit every n-th instruction boundary */
+    uint64_t verif_audit_tick;
+    uint64_t verif_audits, verif_audit_objs, verif_audit_viol, verif_audit_maxdeg;
+    uint64_t verif_audit_peak_live;
+    void    *verif_audit_log;     /* FILE* ($NLVERIF_AUDIT_LOG) or NULL = stderr */
 #endif
 } VmState;
 
